@@ -871,66 +871,90 @@ func (s *Server) handleRelease(req *dhcpv4.DHCPv4) {
 	}
 	s.leasesMu.Unlock()
 
+	if exists && lease != nil {
+		s.releaseLease(mac, lease, radius.TerminateCauseUserRequest, false)
+
+		s.logger.Info("DHCP RELEASE processed",
+			zap.String("mac", mac.String()),
+			zap.String("ip", lease.IP.String()),
+			zap.String("session_id", lease.SessionID),
+		)
+	}
+
+	atomic.AddUint64(&s.releasesTotal, 1)
+}
+
+// releaseLease gives back everything a lease held: the circuit-id index entry,
+// the RADIUS session (Accounting-Stop), QoS policy, NAT block, the address and
+// every fast-path cache entry. It is the single teardown path for RELEASE,
+// DECLINE and lease expiry. The caller has already removed the lease from
+// s.leases, so it runs at most once per lease. With quarantine set the address
+// is withheld from re-allocation (DECLINE).
+func (s *Server) releaseLease(mac net.HardwareAddr, lease *Lease, cause uint32, quarantine bool) {
 	// Remove from circuit-ID secondary index
-	if exists && len(lease.CircuitID) > 0 {
+	if len(lease.CircuitID) > 0 {
 		cidKey := hex.EncodeToString(lease.CircuitID)
 		s.leasesByCircuitIDMu.Lock()
 		delete(s.leasesByCircuitID, cidKey)
 		s.leasesByCircuitIDMu.Unlock()
 	}
 
-	if exists {
-		// Send RADIUS Accounting-Stop
-		if s.radiusClient != nil && lease.SessionID != "" {
-			sessionTime := uint32(time.Since(lease.SessionStart).Seconds())
-			go func() {
-				err := s.radiusClient.SendAccounting(context.Background(), &radius.AcctRequest{
-					SessionID:      lease.SessionID,
-					Username:       mac.String(),
-					MAC:            mac,
-					FramedIP:       lease.IP,
-					StatusType:     radius.AcctStatusStop,
-					InputOctets:    lease.InputBytes,
-					OutputOctets:   lease.OutputBytes,
-					SessionTime:    sessionTime,
-					TerminateCause: radius.TerminateCauseUserRequest,
-					Class:          lease.Class,
-				})
-				if err != nil {
-					s.logger.Warn("Failed to send RADIUS Accounting-Stop",
-						zap.String("session_id", lease.SessionID),
-						zap.Error(err),
-					)
-				}
-			}()
-		}
-
-		// Remove QoS policy
-		if s.qosMgr != nil {
-			if err := s.qosMgr.RemoveSubscriberQoS(lease.IP); err != nil {
-				s.logger.Warn("Failed to remove QoS policy",
-					zap.String("ip", lease.IP.String()),
+	// Send RADIUS Accounting-Stop
+	if s.radiusClient != nil && lease.SessionID != "" {
+		sessionTime := uint32(time.Since(lease.SessionStart).Seconds())
+		go func() {
+			err := s.radiusClient.SendAccounting(context.Background(), &radius.AcctRequest{
+				SessionID:      lease.SessionID,
+				Username:       mac.String(),
+				MAC:            mac,
+				FramedIP:       lease.IP,
+				StatusType:     radius.AcctStatusStop,
+				InputOctets:    lease.InputBytes,
+				OutputOctets:   lease.OutputBytes,
+				SessionTime:    sessionTime,
+				TerminateCause: cause,
+				Class:          lease.Class,
+			})
+			if err != nil {
+				s.logger.Warn("Failed to send RADIUS Accounting-Stop",
+					zap.String("session_id", lease.SessionID),
 					zap.Error(err),
 				)
 			}
-		}
+		}()
+	}
 
-		// Deallocate NAT
-		if s.natMgr != nil {
-			if err := s.natMgr.DeallocateNAT(lease.IP); err != nil {
-				s.logger.Warn("Failed to deallocate NAT",
-					zap.String("ip", lease.IP.String()),
-					zap.Error(err),
-				)
-			}
+	// Remove QoS policy
+	if s.qosMgr != nil {
+		if err := s.qosMgr.RemoveSubscriberQoS(lease.IP); err != nil {
+			s.logger.Warn("Failed to remove QoS policy",
+				zap.String("ip", lease.IP.String()),
+				zap.Error(err),
+			)
 		}
+	}
 
-		// Release IP back to pool
-		if pool := s.poolMgr.GetPool(lease.PoolID); pool != nil {
-			pool.Release(lease.IP)
+	// Deallocate NAT
+	if s.natMgr != nil {
+		if err := s.natMgr.DeallocateNAT(lease.IP); err != nil {
+			s.logger.Warn("Failed to deallocate NAT",
+				zap.String("ip", lease.IP.String()),
+				zap.Error(err),
+			)
 		}
+	}
 
-		// Remove from fast path cache (MAC-based)
+	// Release IP back to pool
+	if pool := s.poolMgr.GetPool(lease.PoolID); pool != nil {
+		pool.Release(lease.IP)
+		if quarantine {
+			// A declined address is in use by someone else: keep it out of circulation
+			pool.MarkUnavailable(lease.IP)
+		}
+	}
+
+	// Remove from fast path cache (MAC-based)
+	if s.loader != nil {
 		macU64 := ebpf.MACToUint64(mac)
 		if err := s.loader.RemoveSubscriber(macU64); err != nil {
 			s.logger.Warn("Failed to remove from fast path cache",
@@ -971,15 +995,7 @@ func (s *Server) handleRelease(req *dhcpv4.DHCPv4) {
 				}
 			}
 		}
-
-		s.logger.Info("DHCP RELEASE processed",
-			zap.String("mac", mac.String()),
-			zap.String("ip", lease.IP.String()),
-			zap.String("session_id", lease.SessionID),
-		)
 	}
-
-	atomic.AddUint64(&s.releasesTotal, 1)
 }
 
 // handleDecline handles DHCP DECLINE
@@ -1000,10 +1016,10 @@ func (s *Server) handleDecline(req *dhcpv4.DHCPv4) {
 	}
 	s.leasesMu.Unlock()
 
+	// The session is over: release everything it held, and keep the leased
+	// address out of circulation
 	if exists && lease != nil {
-		if pool := s.poolMgr.GetPool(lease.PoolID); pool != nil {
-			pool.MarkUnavailable(declinedIP)
-		}
+		s.releaseLease(mac, lease, radius.TerminateCauseUserRequest, true)
 	}
 }
 
@@ -1114,48 +1130,36 @@ func (s *Server) leaseCleanup(ctx context.Context) {
 // cleanupExpiredLeases removes expired leases
 func (s *Server) cleanupExpiredLeases() {
 	now := time.Now()
-	var expired []string
 
-	s.leasesMu.RLock()
+	type expiredLease struct {
+		mac   string
+		lease *Lease
+	}
+	var expired []expiredLease
+
+	// Decide and remove in one critical section, so that a lease renewed or
+	// released by a concurrent handler is never torn down from a stale list
+	s.leasesMu.Lock()
 	for mac, lease := range s.leases {
-		if now.After(lease.ExpiresAt) {
-			expired = append(expired, mac)
+		if lease != nil && now.After(lease.ExpiresAt) {
+			expired = append(expired, expiredLease{mac, lease})
+			delete(s.leases, mac)
 		}
 	}
-	s.leasesMu.RUnlock()
+	s.leasesMu.Unlock()
 
 	if len(expired) == 0 {
 		return
 	}
 
-	s.leasesMu.Lock()
-	for _, mac := range expired {
-		lease := s.leases[mac]
-		delete(s.leases, mac)
-
-		// Remove from circuit-ID secondary index
-		if len(lease.CircuitID) > 0 {
-			cidKey := hex.EncodeToString(lease.CircuitID)
-			s.leasesByCircuitIDMu.Lock()
-			delete(s.leasesByCircuitID, cidKey)
-			s.leasesByCircuitIDMu.Unlock()
+	// An expired session ends like a released one: everything it held goes back
+	for _, e := range expired {
+		hwAddr := e.lease.MAC
+		if hwAddr == nil {
+			hwAddr, _ = net.ParseMAC(e.mac)
 		}
-
-		// Release IP back to pool
-		if pool := s.poolMgr.GetPool(lease.PoolID); pool != nil {
-			pool.Release(lease.IP)
-		}
-
-		// Remove from fast path cache
-		if s.loader != nil {
-			hwAddr, _ := net.ParseMAC(mac)
-			if hwAddr != nil {
-				macU64 := ebpf.MACToUint64(hwAddr)
-				s.loader.RemoveSubscriber(macU64)
-			}
-		}
+		s.releaseLease(hwAddr, e.lease, radius.TerminateCauseSessionTimeout, false)
 	}
-	s.leasesMu.Unlock()
 
 	s.logger.Info("Cleaned up expired leases",
 		zap.Int("count", len(expired)),
